@@ -7,9 +7,9 @@ CONSTANTS
   Variant = "intended"
   MaxPert = 1
   Rounds = 22
-  OwnConds <- OCAll
+  OwnConds <- OCNone
   Presets <- BBoth
-  GenSels <- BBoth
+  GenSels <- BNo
   ScaleRevs <- BBoth
 INVARIANTS C07_OneMove C07_HookOrder C07_Gate C07_OldStay C07_NonRevNow C08_Linear C07_StuckWaits
 PROPERTIES C01_QuietWhenDone
